@@ -424,7 +424,7 @@ def run(ctx):
     ctx.expect_ok(r, 'OscMatchModel (LiteralLaw, PartsLaw, MalformedLaw, StarLaw)')
     r = ctx.model_check('DispatchModel', 'DispatchModel%s.cfg' % sfx, timeout=1500,
                         require_cover=('Create', 'Enable', 'Disable', 'Free', 'OneShot', 'SetFunc', 'SetPerm', 'CmdPeriod', 'Recv'))
-    ctx.expect_ok(r, 'DispatchModel (FreedNeverFires, DisabledNeverFires, OneShotOnce, OrderIsRegistrationOrder, ...)')
+    ctx.expect_ok(r, 'DispatchModel (FreedNeverFires, DisabledNeverFires, SpentNeverFires, FaultTransparent, SpecIsLegal, ...)')
     r = ctx.model_check('DispatchImpl', 'DispatchImpl.cfg', require_cover=('Begin', 'Call', 'End'), timeout=300)
     ctx.expect_ok(r, 'DispatchImpl (delivery loop over a copy refines Fire)')
     r = ctx.model_check('OscFaultModel', 'OscFaultModel%s.cfg' % sfx, require_cover=('Trunc', 'Word', 'ByteF', 'Extend'), timeout=1500)
@@ -485,7 +485,9 @@ def run(ctx):
     ctx.assumptions += [
         'order is demanded among responders registered on the same path of the same dispatcher; order across paths / between the exact and '
         'the matching dispatcher is not (the recv functions are a set in the library)',
-        'callbacks only log; one-shot responders free themselves; a callback freeing another responder is not generated',
+        'callbacks are scripted: they log, may free/disable/enable any responder (themselves included) from inside and may raise on '
+        'their k-th invocation; a responder that a callback of the same delivery freed/disabled/enabled may or may not fire in that '
+        'delivery (the statement gives both readings), everything else is demanded exactly; enable() after free() re-enables (code behaviour)',
         'the arrival time passed to callbacks is compared for bundles with a time tag only (bare messages get the wall clock)',
         'datagrams that parse but use options a receiver need not support (no type tag string, tags other than i f s b, arrays, non-ASCII, '
         'nested bundle time below the enclosing one, pattern forms OSC 1.0 leaves open) only must not raise or hang',
@@ -520,7 +522,7 @@ MANIFEST = dict(
           'hang, the next datagram is delivered). Registries: histories on SystemAction/ServerAction/NotificationCenter validated '
           'against an ordered-map spec.'),
     note=('Not decided: socket-level behaviour; order of invocation across different paths / dispatchers; arrival time of untagged '
-          'messages; datagrams in the grey zone of OSC 1.0 (only no raise / no hang); callbacks that free other responders; regex '
+          'messages; datagrams in the grey zone of OSC 1.0 (only no raise / no hang); whether a responder touched by a callback of the same delivery fires in it; regex '
           'backtracking time beyond the 2 s watchdog. RT dispatch runs on real threads (quiescence by a marker task), not yet under '
           'the deterministic scheduler. Trusted: TLC, the projection in drivers/c18_dispatch.py and harness/oscrt.py.'),
     technique='TLA+ pattern-matching / dispatch / registry specs model-checked by TLC; exhaustive match table and batch trace validation of real responder histories incl. TLC-generated malformed datagrams',
